@@ -254,6 +254,7 @@ def set_default_doc(param, emit_default_doc=True):
     # if param is None: param = {"doc": "", "typ": "Any"}
     if _param is None or "doc" not in _param:
         return name, _param
+    _param = dict(_param)  # a copy: the caller's IR is left as it was given
     has_defaults = extract_default(_param["doc"], emit_default_doc=True)[1] is not None
 
     if has_defaults and not emit_default_doc:
